@@ -4,7 +4,8 @@ from .. import common, corpus, gen_table as G
 
 THEOREMS = ["Lou.C11.select_onetoone", "Lou.C11.step_onetoone", "Lou.C11.fwd_onetoone", "Lou.C11.back_select_onetoone",
             "Lou.C11.back_step_onetoone", "Lou.C11.back_onetoone", "Lou.C11.roundtrip_fwd_back", "Lou.C11.roundtrip_back_fwd",
-            "Lou.C11.onetoone_hyps", "Lou.C11.onetoone_roundtrip", "Lou.C11.onetoone_identity_maps"]
+            "Lou.C11.onetoone_hyps", "Lou.C11.onetoone_roundtrip", "Lou.C11.onetoone_identity_maps",
+            "Lou.FwdCRefine.translateC_eq_translate", "Lou.BackCRefine.translateC_eq_translate"]
 
 CLAIM = dict(
     text=("Kernel-checked, for EVERY logical table that passes the executable structural bijectivity test isOneToOne (every "
